@@ -663,7 +663,8 @@ def rule_round11(repo, rep):
     c = cfg_of(fn)
     rets = [n_ for n_ in c.nodes[3:] if n_.stmt is not None and isinstance(n_.stmt, ast.Return)]
     hdr = c.nodes_where(lambda n_: n_.stmt is not None and n_.kind != "test" and "emit_cmd_stream_header(" in str(norm(n_.stmt)))
-    ext = c.nodes_where(lambda n_: n_.stmt is not None and n_.kind != "test" and ".extend(register_command_stream)" in str(norm(n_.stmt)))
+    ext = c.nodes_where(lambda n_: n_.stmt is not None and n_.kind != "test" and "register_command_stream" in str(norm(n_.stmt)) and (
+        ".extend(" in str(norm(n_.stmt)) or (isinstance(n_.stmt, (ast.Assign, ast.AugAssign)) and "da_list" in str(norm(n_.stmt)).split("=")[0])))
     if not rets:
         raise AnalysisError("create_driver_payload: no return")
     for r_ in rets:
